@@ -5,6 +5,7 @@ import (
 	"errors"
 	"fmt"
 	"io"
+	"os"
 	"sort"
 	"strings"
 	"time"
@@ -32,6 +33,17 @@ import (
 //                              1 = NewCommitsQueue failed, 2 = a PopInsertParents failed (popped = those before it);
 //                              exact = 0: popped is sorted by index before comparison (initial order of roots with
 //                              equal times is left open by sort.Sort)
+// kind 3  NewCommitsQueue(roots), then PopUntil(t) for each target in turn (see c11_queue.go):
+//                              query = (exact (root ...) (target ...))
+//                              obs = (status (tobs ...) (remaining ...) (seen ...)), status 1 = NewCommitsQueue failed;
+//                              tobs = (0 (popped ...)) target returned | (1 (popped ...)) EOF | (2 ()) error (stops;
+//                              remaining and seen then empty); popped = the commits popped by that call, observed on a
+//                              twin queue stepped with PopInsertParents; remaining = Pop() until EOF afterwards;
+//                              seen = nodes for which Seen is true (sorted)
+// kind 4  NewCommitsQueue(roots), npops x PopInsertParents (stopping at EOF), RemoveAncestors(sums):
+//                              query = (exact (root ...) npops (sum ...))
+//                              obs = (status (remaining ...) (seen ...)), status 1 = NewCommitsQueue failed,
+//                              2 = a pop failed, 3 = RemoveAncestors returned an error
 // observation = (obs ...) one per query.
 //
 // Oracle (DFS reachability, set intersection; judged only on histories without absent commits):
@@ -41,6 +53,10 @@ import (
 //   seek{2,3}-input-base-not-returned      some input is an ancestor-or-self of all the others but the result is not such an input
 //   seek{2,3}-missing-although-exists      "not found" although a common ancestor exists
 //   seek-unexpected-error / seek-nil-result
+//   popuntil-false-eof / popuntil-false-found / popuntil-wrong-commit / popuntil-incomplete-eof / popuntil-not-a-walk-prefix /
+//   popuntil-unexpected-error
+//   remove-ancestors-misses-ancestor / remove-ancestors-removes-non-ancestor / remove-ancestors-reorders /
+//   remove-ancestors-unexpected-error
 // When several queries of one case fail, the rarest class is reported (c11Prio).
 
 func init() { props["C11"] = &Prop{Gen: genC11, Run: runC11} }
@@ -365,6 +381,10 @@ func runC11(ctx *Ctx, c *xt.T) (*xt.T, Verdict) {
 				sort.Ints(popped)
 			}
 			out.Add(xt.N(xt.LI(status), xt.Ints(popped)))
+		case 3:
+			out.Add(c11RunPopUntil(w, q, bad))
+		case 4:
+			out.Add(c11RunRemoveAncestors(w, q, bad))
 		default:
 			panic("c11: unknown case kind")
 		}
@@ -466,6 +486,17 @@ func c11WalkQuery(nodes []c11Node, roots []int) *xt.T {
 	return xt.N(xt.Bool(exact), xt.Ints(roots))
 }
 
+// kind 3 / kind 4 queries reuse the exactness rule of walks
+func c11UntilQuery(nodes []c11Node, roots, targets []int) *xt.T {
+	wq := c11WalkQuery(nodes, roots)
+	return xt.N(wq.Kids[0], wq.Kids[1], xt.Ints(targets))
+}
+
+func c11RemoveQuery(nodes []c11Node, roots []int, npops int, sums []int) *xt.T {
+	wq := c11WalkQuery(nodes, roots)
+	return xt.N(wq.Kids[0], wq.Kids[1], xt.LI(npops), xt.Ints(sums))
+}
+
 type c11Emitter struct {
 	ctx   *Ctx
 	cases []Case
@@ -538,6 +569,20 @@ func genC11(ctx *Ctx) []Case {
 		e.emit("witness", 2, gone, []*xt.T{c11WalkQuery(gone, []int{3}), c11WalkQuery(gone, []int{2}),
 			c11WalkQuery(gone, []int{0}), c11WalkQuery(gone, []int{1}), c11WalkQuery(gone, []int{0, 3})}, 8)
 	}
+	// PopUntil / RemoveAncestors on the fast-forward history, with unknown and deleted commits
+	{
+		nodes := c11ApplyRegime(ctx, ff, c11Topo)
+		e.emit("witness", 3, nodes, []*xt.T{c11UntilQuery(nodes, []int{3}, []int{1, 1, 0}), c11UntilQuery(nodes, []int{3}, []int{9}),
+			c11UntilQuery(nodes, []int{2, 3}, []int{3, 2, 0, 0}), c11UntilQuery(nodes, []int{}, []int{0}), c11UntilQuery(nodes, []int{9}, []int{0})}, 8)
+		e.emit("witness", 4, nodes, []*xt.T{c11RemoveQuery(nodes, []int{3}, 1, []int{1}), c11RemoveQuery(nodes, []int{3, 1}, 0, []int{2}),
+			c11RemoveQuery(nodes, []int{3}, 1, []int{}), c11RemoveQuery(nodes, []int{3}, 1, []int{9}), c11RemoveQuery(nodes, []int{2, 0}, 0, []int{3, 3})}, 8)
+		gone := c11ApplyRegime(ctx, ff, c11Topo)
+		gone[1].present = false
+		e.emit("witness", 3, gone, []*xt.T{c11UntilQuery(gone, []int{3}, []int{2, 0}), c11UntilQuery(gone, []int{3}, []int{0}),
+			c11UntilQuery(gone, []int{3}, []int{1})}, 8)
+		e.emit("witness", 4, gone, []*xt.T{c11RemoveQuery(gone, []int{3}, 1, []int{2}), c11RemoveQuery(gone, []int{3}, 0, []int{0}),
+			c11RemoveQuery(gone, []int{0}, 0, []int{3}), c11RemoveQuery(gone, []int{3}, 3, []int{0})}, 8)
+	}
 	// ---- exhaustive small scope ------------------------------------------------------
 	maxN := 5
 	for n := 1; n <= maxN; n++ {
@@ -587,6 +632,49 @@ func genC11(ctx *Ctx) []Case {
 					wq = append(wq, c11WalkQuery(nodes, s))
 				}
 				e.emit(tag, 2, nodes, wq, 40)
+				// PopUntil: root subsets x (every single target, every ordered pair of targets)
+				var uq []*xt.T
+				if full {
+					for _, rs := range subsets {
+						for _, t := range pairs {
+							uq = append(uq, c11UntilQuery(nodes, rs, t))
+						}
+						for t := 0; t <= n; t++ { // n = a commit that does not exist
+							uq = append(uq, c11UntilQuery(nodes, rs, []int{t}))
+						}
+					}
+				} else {
+					for k := 0; k < 12; k++ {
+						rs := subsets[ctx.Pick(len(subsets))]
+						ts := make([]int, 1+ctx.Pick(3))
+						for i := range ts {
+							ts[i] = ctx.Pick(n + 1)
+						}
+						uq = append(uq, c11UntilQuery(nodes, rs, ts))
+					}
+				}
+				e.emit(tag, 3, nodes, uq, 40)
+				// RemoveAncestors: queue = root subset after 0..3 pops, sums = every subset (VERIF_C11_FULL=1: all four
+				// pop counts for every pair instead of a random one; 9.7M calls in thorough)
+				var rq []*xt.T
+				if full {
+					for _, rs := range subsets {
+						for _, ss := range subsets {
+							if os.Getenv("VERIF_C11_FULL") != "" {
+								for np := 0; np <= 3; np++ {
+									rq = append(rq, c11RemoveQuery(nodes, rs, np, ss))
+								}
+							} else {
+								rq = append(rq, c11RemoveQuery(nodes, rs, ctx.Pick(4), ss))
+							}
+						}
+					}
+				} else {
+					for k := 0; k < 16; k++ {
+						rq = append(rq, c11RemoveQuery(nodes, subsets[ctx.Pick(len(subsets))], ctx.Pick(4), subsets[ctx.Pick(len(subsets))]))
+					}
+				}
+				e.emit(tag, 4, nodes, rq, 40)
 			}
 		}
 	}
@@ -659,6 +747,15 @@ func genC11(ctx *Ctx) []Case {
 		e.emit(tag, 1, nodes, seek2, 32)
 		e.emit(tag, 1, nodes, seek3, 8)
 		e.emit(tag, 2, nodes, walks, 8)
+		var untils, removes []*xt.T
+		for j := 0; j < 4; j++ {
+			untils = append(untils, c11UntilQuery(nodes, pick(1+ctx.Pick(3)), pick(1+ctx.Pick(4))))
+		}
+		for j := 0; j < 6; j++ {
+			removes = append(removes, c11RemoveQuery(nodes, pick(1+ctx.Pick(5)), ctx.Pick(n), pick(1+ctx.Pick(3))))
+		}
+		e.emit(tag, 3, nodes, untils, 8)
+		e.emit(tag, 4, nodes, removes, 8)
 	}
 	return e.cases
 }
